@@ -1,0 +1,27 @@
+//go:build verif
+// +build verif
+
+package core
+
+import "context"
+
+// Verification hooks (build tag verif): the test-only variants of Upload / Publish that take the number of entries
+// per index file, so that the model checker in /verif can cross index-file boundaries with a handful of files.
+
+// VerifUpload is Upload / UploadSpecificKeys with an explicit number of entries per index file.
+func VerifUpload(ctx context.Context, bundle *Bundle, entriesPerFile uint, getKeys func() ([]string, error), opts ...Option) error {
+	return implUpload(ctx, bundle, entriesPerFile, getKeys, opts...)
+}
+
+// VerifPublish is Publish / PublishSelectBundleEntries with an explicit number of entries per index file.
+func VerifPublish(ctx context.Context, bundle *Bundle, entriesPerFile uint, selectionPredicate func(string) (bool, error)) error {
+	if selectionPredicate == nil {
+		selectionPredicate = func(string) (bool, error) { return true, nil }
+	}
+	return implPublish(ctx, bundle, entriesPerFile, selectionPredicate)
+}
+
+// VerifPublishMetadata is PublishMetadata (publish=true) / DownloadMetadata (publish=false) with explicit entries per index file.
+func VerifPublishMetadata(ctx context.Context, bundle *Bundle, publish bool, entriesPerFile uint) error {
+	return implPublishMetadata(ctx, bundle, publish, entriesPerFile)
+}
